@@ -498,7 +498,7 @@ func checkTypeTables(p *Prog, r *Report) {
 	// sender
 	for _, t := range fileTypes {
 		a := entryAssign{typ: t, opts: map[string]bool{}, flags: map[string]bool{}}
-		s := &Sim{Fn: w.enc, Atom: w.encAtom(a), Completed: func(ret *ssa.Return) bool {
+		s := &Sim{Fn: w.enc, Inline: w.inlineHelpers, Completed: func(ret *ssa.Return) bool {
 			v := retResults(ret)[0]
 			return isNilConst(v) || isSkipDirLoad(v)
 		}, Record: func(in ssa.Instruction) string {
@@ -513,6 +513,7 @@ func checkTypeTables(p *Prog, r *Report) {
 			}
 			return ""
 		}}
+		s.Atom = w.encAtom(a, s.C)
 		seqs := s.Run()
 		got := map[string]bool{}
 		for _, q := range seqs {
